@@ -224,6 +224,8 @@ type pcase struct {
 	EchoLen int           `json:"echo_len"`
 	ID, Seq uint16
 	Fill    uint64 `json:"fill"`
+	TC      uint8  `json:"traffic_class"`
+	Flow    uint32 `json:"flow_id"`
 }
 
 func hostAddr(fam string, v4 netip.Addr, fill uint64) netip.Addr {
@@ -253,7 +255,7 @@ func checkCase(t failer, c pcase) (labels []string) {
 	if err != nil {
 		t.Fatalf("harness: cannot build path %+v: %v", c.Path, err)
 	}
-	p := wire.Pkt{SrcIA: addr.IA(c.SrcIA), DstIA: addr.IA(c.DstIA), Src: src, Dst: dst, Path: pth, SrcPort: c.SrcPort, HBH: c.HBH}
+	p := wire.Pkt{SrcIA: addr.IA(c.SrcIA), DstIA: addr.IA(c.DstIA), Src: src, Dst: dst, Path: pth, SrcPort: c.SrcPort, HBH: c.HBH, TrafficClass: c.TC, FlowID: c.Flow}
 	var reqTx ntp.Time64
 	body := make([]byte, c.EchoLen)
 	for i := range body {
@@ -551,6 +553,8 @@ func TestPropListenerProbes(t *testing.T) {
 			EchoLen: rapid.OneOf(rapid.IntRange(0, 1200), rapid.IntRange(0, 16)).Draw(t, "echolen"),
 			ID:      rapid.Uint16().Draw(t, "id"), Seq: rapid.Uint16().Draw(t, "seq"),
 			Fill: rapid.Uint64().Draw(t, "fill"),
+			TC:   rapid.OneOf(rapid.Just(uint8(0)), rapid.Uint8()).Draw(t, "tc"),
+			Flow: rapid.OneOf(rapid.Just(uint32(1)), rapid.Uint32Range(0, 1<<20-1)).Draw(t, "flow"),
 		}
 		if c.Payload != "ntp" && c.Payload[:3] != "udp" {
 			c.SPAO = "none"
@@ -662,6 +666,7 @@ func TestPropEndToEnd(t *testing.T) {
 		}
 		bit := rapid.IntRange(0, 1<<16).Draw(t, "bit")
 		c := &client.SCIONClient{Log: slog.New(slog.NewTextHandler(io.Discard, nil))}
+		c.DSCP = rapid.OneOf(rapid.Just(uint8(0)), rapid.Uint8Range(0, 63)).Draw(t, "dscp")
 		if authOn {
 			c.Auth.Enabled = true
 			c.Auth.DRKeyFetcher = scion.NewFetcher(nil)
